@@ -9,12 +9,17 @@
 -/
 import OrasModel.Model.Ref
 import OrasModel.Gen.Regex
+import OrasModel.Spec.Grammar
 import OrasModel.Driver.Util
 namespace Oras.Driver.R
 open Oras Oras.Driver
 
 def cfgOf (regok : Bool) : RefCfg :=
   { validReg := fun _ => regok, repoRe := Gen.repositoryRe, tagRe := Gen.tagRe, algs := Gen.digestAlgs }
+
+/-- the documented grammar (specification side) -/
+def specCfgOf (regok : Bool) : RefCfg :=
+  { validReg := fun _ => regok, repoRe := Spec.Grammar.repository, tagRe := Spec.Grammar.tag, algs := Spec.Grammar.digestAlgs }
 
 def showRef (r : Ref) : String :=
   "ok " ++ String.ofList r.registry ++ "|" ++ String.ofList r.repository ++ "|" ++ String.ofList r.reference
@@ -72,7 +77,7 @@ def step (toks : List String) : Option (String × String) := do
     let regok := (← kv rest "regok") == "1"
     let s := (← kv rest "s").toList
     let cfg := cfgOf regok
-    some (showOpt (parseRef cfg s), showSpec (specParse cfg s))
+    some (showOpt (parseRef cfg s), showSpec (specParse (specCfgOf regok) s))
   | "round" :: rest =>
     let regok := (← kv rest "regok") == "1"
     let s := (← kv rest "s").toList
@@ -81,7 +86,7 @@ def step (toks : List String) : Option (String × String) := do
       | some r => showOpt (parseRef cfg (r.format cfg))
       | none => "err"
     -- spec: whenever the string is accepted, the round trip returns the same reference
-    let sp := match specParse cfg s |>.eraseDups with
+    let sp := match specParse (specCfgOf regok) s |>.eraseDups with
       | [r] => showRef r
       | _ => "err"
     some (m, sp)
@@ -89,7 +94,7 @@ def step (toks : List String) : Option (String × String) := do
     let regok := (← kv rest "regok") == "1"
     let base ← parseBase (← kv rest "base")
     let s := (← kv rest "s").toList
-    some (showOpt (repoParseRef (cfgOf regok) base s), "*")
+    some (showOpt (repoParseRef (cfgOf regok) base s), showOpt (repoParseRef (specCfgOf regok) base s))
   | "url" :: rest =>
     let regok := (← kv rest "regok") == "1"
     let base ← parseBase (← kv rest "base")
